@@ -308,6 +308,14 @@ func pairWrittenToTarget(actual reflect.Type, convPair, targetPair streamConvert
 
 func convert(values map[string]any, convPairs map[string]streamConvertPair, isStream bool) error {
 	if !isStream {
+		// A run without streams holds the values themselves. A nil one (a node of output type any that
+		// answered nil) is written as nilChunk too: a plain nil stands for a stream without chunks, and a
+		// resume through Stream would hand the successor such a stream instead of the nil value.
+		for key, v := range values {
+			if v == nil {
+				values[key] = nilChunk{}
+			}
+		}
 		return nil
 	}
 	for key, v := range values {
